@@ -242,6 +242,15 @@ def gen_algo(simtype: str, rng) -> dict:
         spec["alpha"] = float(np.round(rng.uniform(0.0, 0.5), 3)) if a == "hht" else 0.5
     elif a == "hht_newmark":
         spec["alpha"] = float(np.round(rng.uniform(0.0, 1 / 3), 3))
+    if a in ("midpoint", "euler_implicit", "euler_explicit", "newmark", "hht_newmark") and rng.random() < 0.3:
+        # parameters the scheme does not have (a kwargs dict shared by a loop over schemes): accepted, and documented
+        # as belonging to newmark / hht only -- they must not leak into this scheme
+        if a != "newmark":
+            spec["beta"] = float(np.round(rng.uniform(0.2, 0.5), 3))
+            spec["gamma"] = float(np.round(rng.uniform(0.5, 0.9), 3))
+        if a != "hht_newmark":
+            spec["alpha"] = float(np.round(rng.uniform(0.0, 0.9), 3))
+        spec["stray"] = True
     return spec
 
 
